@@ -35,6 +35,9 @@ C_BLOCK_2STAR = _c_block("block-2star", "/**", cont=" ** ")      # banner style:
 HASH = Form("hash", "line", "#")
 XML_C = Form("xml", "block", "<!--", "-->", forbid=("--",), family="html")
 
+# a `//` comment continued onto the next line by a backslash (line splicing): the tag sits on the continuation line
+C_LINE_SPLICED = Form("line-spliced", "line", "// continued \\\n   ")
+
 C_CODE = ["int x = 1;", "int y = x + 2;", "x++;"]
 C_DECOY = ['const char *s%d = "<block name=\\"decoy\\">";', 'const char *t%d = "</block>";',
            'const char *m%d = "a \\\n// <block name=\\"ml\\">";']
@@ -42,8 +45,8 @@ C_DECOY = ['const char *s%d = "<block name=\\"decoy\\">";', 'const char *t%d = "
 LANGS = {
     "bash": dict(suffixes=["sh", "bash"], forms=[HASH], code=["x=1", "echo hi", "y=$((x + 1))"],
                  decoys=["s%d='<block name=\"decoy\">'", 'echo "</block>" # %d', 'cat <<\'EOF%d\'\n# <block name="ml">\nEOF%d']),
-    "c": dict(suffixes=["c"], forms=[C_LINE, C_BLOCK, C_BLOCK_STAR, C_DOC_BLOCK], code=C_CODE, decoys=C_DECOY),
-    "cpp": dict(suffixes=["cc", "cpp", "h"], forms=[C_LINE, C_BLOCK, C_BLOCK_STAR, C_DOC_BLOCK, Form("doc-line", "line", "///"), C_BLOCK_2STAR],
+    "c": dict(suffixes=["c"], forms=[C_LINE, C_BLOCK, C_BLOCK_STAR, C_DOC_BLOCK, C_LINE_SPLICED], code=C_CODE, decoys=C_DECOY),
+    "cpp": dict(suffixes=["cc", "cpp", "h"], forms=[C_LINE, C_BLOCK, C_BLOCK_STAR, C_DOC_BLOCK, Form("doc-line", "line", "///"), C_BLOCK_2STAR, C_LINE_SPLICED],
                 code=C_CODE,
                 decoys=C_DECOY + ['const char *r%d = R"x(" /* <block name="rawdecoy"> */ " /* </block> */ ")x";',
                                   'const char *q%d = R"(// <block name="rawline">)";']),
